@@ -680,8 +680,9 @@ def main():
     os.makedirs(GEN, exist_ok=True)
     with _Out(os.path.join(GEN, "Methods.lean")) as f:
         f.write("-- GENERATED by tools/extract_methods.py from the actors' lib.rs — do not edit by hand.\n")
-        f.write("import BA.Model.DispatchTerm\nnamespace BA.Gen\nopen BA.Dispatch\n\n")
-        f.write("def firstExportedMethodNumber : Nat := %d\n\n" % first_exported)
+        f.write("import BA.Model.DispatchTerm\nimport BA.Generated.Constants\nnamespace BA.Gen\nopen BA.Dispatch\n\n")
+        f.write("-- the export boundary is defined in Generated/Constants.lean; this extractor read the same value\n")
+        f.write("example : firstExportedMethodNumber = %d := rfl\n\n" % first_exported)
         f.write("/-- one row per (actor, method of `enum Method`) as dispatched by the actor's dispatch table -/\n")
         f.write("def methods : List Entry := [\n")
         f.write(",\n".join(
